@@ -7,6 +7,7 @@
 package gorillamux
 
 import (
+	"fmt"
 	"net/http"
 	"net/url"
 	"regexp"
@@ -156,6 +157,9 @@ func makeServers(in openapi3.Servers) ([]srv, error) {
 		if lhs := strings.Index(serverURL, ":{"); lhs > 0 {
 			rest := serverURL[lhs+len(":{"):]
 			rhs := strings.Index(rest, "}")
+			if rhs < 0 {
+				return nil, fmt.Errorf("invalid server URL %q: unclosed port variable", server.URL)
+			}
 			portVariable := rest[:rhs]
 			portValue := server.Variables[portVariable].Default
 			serverURL = strings.ReplaceAll(serverURL, "{"+portVariable+"}", portValue)
